@@ -34,7 +34,7 @@ def _sig(v):
     chk = importlib.import_module("__main__")
     base = chk.default_sig(v)
     head, _, paths = base.rpartition("|")
-    ps = sorted({re.sub(r"/(apply|get|depth)/[^,/!]+", r"/\\1/*", x) for x in paths.split(",")})
+    ps = sorted({re.sub(r"/(apply|get|depth)/[^,/!]+", r"/\1/*", x) for x in paths.split(",")})
     return head + "|" + ",".join(ps)
 
 
